@@ -33,9 +33,12 @@ def _richardson(f, x, h):
 def replay_dbw(model):
     from bluebonnet.fluids import water
     m = model_floats(model, ["T", "p"])
-    num = _richardson(lambda p: water.b_water_McCain(m["T"], p), m["p"], max(1.0, 1e-3 * m["p"]))
+    # b_water_McCain is a quadratic in pressure: the extrapolated central difference has no truncation error and, with a step
+    # of 10 psi or more, rounding error below 1e-10 relative - a constant that differs between the derivative and its parent
+    # in the sixth digit (relative effect 3e-8 .. 1e-6) has to be visible here
+    num = _richardson(lambda p: water.b_water_McCain(m["T"], p), m["p"], max(10.0, 1e-2 * m["p"]))
     hand = water.b_water_McCain_dp(m["T"], m["p"])
-    bad = abs(num - hand) > 1e-6 * abs(hand) + 1e-18
+    bad = abs(num - hand) > 2e-9 * abs(hand) + 1e-18
     return bad, {"what": f"dBw/dp: numerical derivative of b_water_McCain {num!r} vs b_water_McCain_dp {hand!r}",
                  "inputs": m}
 
